@@ -12,6 +12,14 @@ UNIT_MODES = {
     'bits': ['dbg', 'rel'],
     'shift_ops': ['dbg', 'rel'],
     'random': ['dbg', 'rel'],
+    'ops_misc': ['dbg', 'rel'],
+    'ops_shr_i': ['dbg', 'rel'],
+    'ops_shl_i': ['dbg', 'rel'],
+    'ops_shr_u': ['dbg', 'rel'],
+    'ops_shl_u': ['dbg', 'rel'],
+    'ops_arith_i': ['dbg', 'rel'],
+    'ops_arith_u': ['dbg', 'rel'],
+    'ops_core': ['dbg', 'rel'],
 }
 
 # property -> verus units owned by the property (dependencies are added automatically) and the
@@ -30,6 +38,7 @@ PROPS = {
     'C11': dict(units=['radixout'], title='radix output'),
     'C13': dict(units=['cast', 'xcast'], title='checked conversions'),
     'C14': dict(units=[], level='model_checking', title='float casts'),
+    'C17': dict(units=['ops_core', 'ops_arith_u', 'ops_arith_i', 'ops_shl_u', 'ops_shr_u', 'ops_shl_i', 'ops_shr_i', 'ops_misc'], title='operator traits agree with inherent methods'),
     'C19': dict(units=[], level='model_checking', title='num_traits conversions'),
     'C15': dict(units=['slices'], title='slices and endianness'),
     'C16': dict(units=['consts'], title='digit-type independence and constants'),
